@@ -1889,12 +1889,17 @@ func (h *fsmHandler) recvMessageloop(ctx context.Context, conn net.Conn, holdtim
 					useRevisedError := h.fsm.isTreatAsWithdraw
 
 					var validationErr error
-					if handling == bgp.ERROR_HANDLING_NONE {
+					// Validate also when decoding only discarded attributes: the
+					// remaining message may still lack a mandatory attribute, and
+					// the stronger of the two reactions applies.
+					if handling == bgp.ERROR_HANDLING_NONE || handling == bgp.ERROR_HANDLING_ATTRIBUTE_DISCARD {
 						ok, ve := bgp.ValidateUpdateMsg(body, rfMap, h.fsm.isEBGP, h.fsm.isConfed, h.allowLoopback)
 						if !ok {
-							validationErr = ve
-							handling = h.handlingError(m, ve, useRevisedError)
-							fmsg.handling = handling
+							if vh := h.handlingError(m, ve, useRevisedError); vh > handling {
+								validationErr = ve
+								handling = vh
+								fmsg.handling = handling
+							}
 						}
 					}
 					if handling == bgp.ERROR_HANDLING_SESSION_RESET {
